@@ -546,6 +546,12 @@ func (p *Parser) evaluateValues(ctx context) (evaluatedValues, error) {
 				return evaluatedValues{}, p.expectedError(fmt.Sprintf(`only one return value from function "%s"`, funcName), exprToken)
 			}
 		}
+		// Only a call itself can stand for no value or for several values (both cases are handled above and by the
+		// callers). Any other expression of such a type - a call put in brackets - is not a value.
+		if dataType := expr.ValueType().DataType(); dataType == DATA_TYPE_UNKNOWN ||
+			(dataType == DATA_TYPE_MULTIPLE && expr.StatementType() != STATEMENT_TYPE_FUNCTION_CALL && expr.StatementType() != STATEMENT_TYPE_APP_CALL) {
+			return evaluatedValues{}, p.expectedError("value", exprToken)
+		}
 		// Check if other values follow.
 		if nextToken.Type() != lexer.COMMA {
 			break
